@@ -353,7 +353,9 @@ impl ViCut {
 	}
 
 	pub fn set_normal_mode(&mut self) {
-		let should_go_back_one = self.mode.report_mode() == ModeReport::Insert;
+		let was_insert = self.mode.report_mode() == ModeReport::Insert;
+		let should_go_back_one = matches!(self.mode.report_mode(), ModeReport::Insert | ModeReport::Replace);
+		let was_normal = self.mode.report_mode() == ModeReport::Normal;
 		self.mode = Box::new(ViNormal::new());
 		self.current_buffer().stop_selecting();
 		if should_go_back_one {
@@ -362,8 +364,19 @@ impl ViCut {
 			if self.current_buffer().grapheme_at(new_pos).is_some_and(|gr| gr != "\n") {
 				self.current_buffer().cursor.sub(1);
 			}
-			if self.current_buffer().should_handle_block_insert() {
+			if was_insert && self.current_buffer().should_handle_block_insert() {
 				self.current_buffer().handle_block_insert();
+			}
+		}
+		if !was_normal {
+			// An open Visual/Insert/Replace mode was closed for the user: the cursor has to be
+			// where normal mode can have it, never on the terminator of a non-empty line
+			let buf = self.current_buffer();
+			buf.set_cursor_clamp(true);
+			buf.cursor.set(buf.cursor.get());
+			if buf.grapheme_at_cursor().is_some_and(|gr| gr == "\n")
+				&& buf.grapheme_before_cursor().is_some_and(|gr| gr != "\n") {
+					buf.cursor.sub(1);
 			}
 		}
 	}
